@@ -797,6 +797,17 @@ def format_docstring(obj: model.Documentable) -> Tag:
 
     source = ensure_parsed_docstring(obj)
 
+    if source is not None and source is not obj and source.page_object is not obj.page_object:
+        # The docstring is inherited and will be presented on another page than the page of 
+        # the object it was written for: make sure we're always generating full urls, 
+        # links relative to the page of the source object would be broken.
+        # The eventual link errors are reported when the source object is rendered.
+        with source.docstring_linker.switch_context(None):
+            return _format_docstring(obj, source)
+    return _format_docstring(obj, source)
+
+def _format_docstring(obj: model.Documentable, source: Optional[model.Documentable]) -> Tag:
+
     ret: Tag = tags.div
     if source is None:
         ret(tags.p(class_='undocumented')("Undocumented"))
